@@ -1,6 +1,8 @@
 package drive
 
 import (
+	"github.com/golang/protobuf/proto" //nolint:staticcheck
+	"google.golang.org/protobuf/encoding/protojson"
 	"encoding/json"
 	"fmt"
 	"math/big"
@@ -135,6 +137,28 @@ func (e *c10ex) Exec(op string) string {
 		return okErr(e.a.RobotNB("deleteCCTransferFrom", w[1]))
 	case "cancel":
 		return okErr(e.a.RobotBatched("cancelCCTransferFrom", w[1]))
+	case "rebin":
+		// the records of this id as an early version of the library stored them: binary protobuf
+		// instead of JSON (same content); every later step must treat them alike
+		if len(w) != 2 {
+			return "bad-op"
+		}
+		for _, c := range []*world.Chan{e.a, e.b} {
+			for _, k := range []string{"/transfer/from/" + dec(w[1]), "/transfer/to/" + dec(w[1])} {
+				v := c.L.State[k]
+				if len(v) == 0 || v[0] != '{' {
+					continue
+				}
+				tr := &fpb.CCTransfer{}
+				if err := protojson.Unmarshal(v, tr); err != nil {
+					continue
+				}
+				if bin, err := proto.Marshal(tr); err == nil {
+					c.L.State[k] = bin
+				}
+			}
+		}
+		return "ok"
 	case "tobad":
 		// the robot's create-to with content the chaincode must refuse whatever the state: both ends the
 		// same channel, neither end this channel, a token of neither channel, a direction flag that
@@ -335,6 +359,19 @@ func genC10(c *Cfg, emit func([]string)) {
 			}
 		}
 	}
+	// (a''') the records re-encoded in the old binary form at every stage, then every step again
+	for _, dir := range []string{"f", "b", "g", "h"} {
+		for _, st := range stages[1:] {
+			for _, next := range alpha {
+				h := []string{"reset " + dir, "fund u0 100"}
+				for _, p := range st {
+					h = append(h, p, "dump")
+				}
+				h = append(h, "rebin t1", "dump", next, "dump", "to t1 u0 40", "dump", "commit t1", "dump", "delto t1", "delfrom t1", "dump")
+				emit(h)
+			}
+		}
+	}
 	// (a'') malformed initiations and create-to contents at every stage
 	for _, dir := range []string{"f", "b", "g", "h"} {
 		for _, st := range stages[:3] {
@@ -402,6 +439,6 @@ func genC10(c *Cfg, emit func([]string)) {
 		}
 		emit(h)
 	}
-	c.Rule = fmt.Sprintf("(a) every sequence of %d steps over {initiate, create-to, commit, delete-to, delete-from, cancel} on one id (forward direction exhaustively, backward %s): every step attempted in and out of turn and repeated, the robot stopping after any prefix; (a') every robot step attempted by an ordinary client certificate at every stage of a run, in all 4 token shapes; (b) %d random histories over 3 ids x 2 users x both directions with duplicate ids, amounts {0,1,40,50,100,101}, off-protocol create-to content; two real chaincode instances on two simulated peers; after every step token/allowed balances of both users on both channels, both given counters and the records visible through channelTransferFrom/To. non-trivial = contains an initiation; distinct = sha256", depth, map[bool]string{true: "exhaustively", false: "sampled"}[c.Thorough()], nRand)
+	c.Rule = fmt.Sprintf("(a) every sequence of %d steps over {initiate, create-to, commit, delete-to, delete-from, cancel} on one id (forward direction exhaustively, backward %s): every step attempted in and out of turn and repeated, the robot stopping after any prefix; (a''') the records of the id re-encoded in the old binary form at every stage followed by every step; (a') every robot step attempted by an ordinary client certificate at every stage of a run, in all 4 token shapes; (b) %d random histories over 3 ids x 2 users x both directions with duplicate ids, amounts {0,1,40,50,100,101}, off-protocol create-to content; two real chaincode instances on two simulated peers; after every step token/allowed balances of both users on both channels, both given counters and the records visible through channelTransferFrom/To. non-trivial = contains an initiation; distinct = sha256", depth, map[bool]string{true: "exhaustively", false: "sampled"}[c.Thorough()], nRand)
 	c.Extra = map[string]any{"walk_depth": depth, "random": nRand}
 }
